@@ -131,11 +131,13 @@ class Expect:
             return ("leaf", {"kind": "word", "method": "term", "fields": fields, "q": n.value[1:-1],
                              "name": here, "ztq": "none"})
         if type(n) is T.Range:
+            def text(b):      # a bound under `-` is the negative value
+                return "-" + b.a.value if type(b) is T.Prohibit else b.value
             bounds = {}
-            if n.high.value and n.high.value != "*":
-                bounds["lte" if n.include_high else "lt"] = n.high.value
-            if n.low.value and n.low.value != "*":
-                bounds["gte" if n.include_low else "gt"] = n.low.value
+            if text(n.high) and text(n.high) != "*":
+                bounds["lte" if n.include_high else "lt"] = text(n.high)
+            if text(n.low) and text(n.low) != "*":
+                bounds["gte" if n.include_low else "gt"] = text(n.low)
             return ("leaf", {"kind": "range", "fields": fields, "bounds": bounds, "name": here, "ztq": "none"})
         if type(n) in (T.Group, T.FieldGroup):
             return self.go(n.expr, prefix, analyzed, down)
@@ -215,7 +217,7 @@ def judged(T, cfg, tree):
         for k in ("match_type", "type"):
             if k in o and not isinstance(o[k], str):
                 return False
-    return E.range_bounds_plain(T, tree)
+    return True
 
 
 def correspond(model_ok, res):
@@ -232,7 +234,8 @@ def correspond(model_ok, res):
                                       'f:[* TO 3}', 'z OR "i j"~1', 'x']]
     sessions = [({}, [t16, t16b], "F16"), ({}, hist, "history"),
                 ({"not_analyzed_fields": ["text", "f"]}, hist, "history")] + E.builder_sessions(r, T, n)
-    stats = {"judged": 0, "leaf_clauses": 0, "F16": 0, "kinds": {}}
+    stats = {"judged": 0, "leaf_clauses": 0, "F16": 0, "kinds": {}, "spec_cases": 0}
+    spec_cases, spec_payloads = [], []
 
     def oracle(cfg, tree, outcome, info):
         out = []
@@ -255,6 +258,15 @@ def correspond(model_ok, res):
         for c in json_leaves(outcome[1]):
             k = next(iter(c))
             stats["kinds"][k] = stats["kinds"].get(k, 0) + 1
+        if not name_lost_by_flattening(T, tree):
+            # the Coq specification EsSpec.expected_clauses against the implementation's leaf clauses
+            try:
+                spec_cases.append("(%s, %s, %s)" % (
+                    E.g_config(cfg), lib.g_item(tree),
+                    lib.g_list([E.g_json(c, E.decimals_of(T, tree)) for c in json_leaves(outcome[1])])))
+                spec_payloads.append(payload)
+            except lib.Unmodelled:
+                pass
         if want != got:
             fid = None
             if name_lost_by_flattening(T, tree):
@@ -265,6 +277,29 @@ def correspond(model_ok, res):
         return out
 
     E.run_sessions("C06", res, model_ok, sessions, T, oracle)
+    if model_ok and spec_cases and not res.model_error:
+        defs = """Fixpoint remove_one (x : json) (l : list json) : option (list json) :=
+  match l with
+  | [] => None
+  | y :: l' => if json_ceqb x y && json_ceqb y x then Some l' else option_map (cons y) (remove_one x l')
+  end.
+Fixpoint mseq (a b : list json) : bool :=
+  match a with
+  | [] => match b with [] => true | _ => false end
+  | x :: a' => match remove_one x b with Some b' => mseq a' b' | None => false end
+  end.
+Definition chk2 (c : es_config * item * list json) : bool :=
+  let '(cfg, t, ls) := c in mseq (expected_clauses cfg t) ls."""
+        try:
+            bad = lib.eval_cases("C06s", E.IMPORTS + " EsSpec", defs, spec_cases, "chk2", shard=40)
+        except Exception as e:  # noqa
+            res.model_error = str(e)[-3000:]
+            bad = []
+        for i in bad:
+            res.disagreements.append(dict(spec_payloads[i], why="EsSpec.expected_clauses differs from the "
+                                          "implementation's leaf clauses"))
+        stats["spec_cases"] = len(spec_cases)
+        res.cases += len(spec_cases)
     res.rule = ("sessions of 1-10 calls on one builder instance (each also on a fresh instance, first tree "
                 "repeated at the end): fixed histories interleaving phrases with slop, ranges of different "
                 "shapes and words; parsed corpus x fixed configurations; random supported trees, supported trees "
@@ -279,25 +314,31 @@ SPEC = {
     "targets": ["props/C06.vo"],
     "model_targets": ["model/EsBuild.vo", "model/EsSpec.vo"],
     "module": "C06",
-    "theorems": ["C06_calls_independent", "C06_leaf_names_refuted",
-                 "C06_class_defaults_untouched"],
+    "theorems": ["C06_leaves_partial", "C06_eleaves_partial", "C06_plain_json", "C06_leaves_refuted",
+                 "C06_leaf_names_refuted", "C06_calls_independent", "C06_class_defaults_untouched",
+                 "C06_tie_e_consts_immutable", "C06_tie_builder_eclasses_standard", "C06_tie_methods_known"],
     "correspond": correspond,
-    "statement": "leaf clauses of the generated query = the clauses predicted from the tree (field, value, kind, "
-                 "options, _name); plain JSON; results independent of earlier calls",
+    "statement": "multiset of the leaf clauses of the generated query = clauses of the leaves expected from the "
+                 "tree (field, value, kind, modifiers, options, zero_terms_query, _name): refuted in full (F16), "
+                 "proved under no_named_flattened (and in document order on the E-tree); every produced JSON is "
+                 "plain data (proved in full); results independent of earlier calls (pure model + generated "
+                 "immutability facts + call-sequence correspondence)",
     "trusted_base": [
         "Coq 8.16.1 kernel (vm_compute for witnesses and correspondence; no native_compute)",
         "no axioms (Print Assumptions: closed under the global context)",
         "gen/translate.py: class MROs, method tables of ElasticsearchQueryBuilder and CheckNestedFields, \\s class",
         "hand-written models coq/model/{Json,EsSpecs,EsCheck,EsBuild}.v tied by differential correspondence on "
         "every run, including call sequences on one builder instance and on fresh ones; class-level constants "
-        "of luqum/elasticsearch/tree.py (_KEYS_TO_ADD, ADDITIONAL_KEYS_TO_ADD, zero_terms_query, operation) are "
-        "hard-coded in EsBuild.v (E-CONST), not generated",
-        "the leaf-clause table itself is checked on the implementation by the Python oracle of harness/c06.py "
-        "(written from the documentation), not by a Coq theorem",
+        "of luqum/elasticsearch/tree.py come from the generated coq/gen/GenEs.v (tie facts "
+        "gen_e_consts_immutable, gen_builder_eclasses_standard)",
+        "the rendering of one expected leaf record to its clause is EsBuild.leaf_json (the documented table as "
+        "a function); it is additionally checked on the implementation by the independent Python oracle of "
+        "harness/c06.py",
     ],
     "assumptions": [
-        "supported trees in grammar shapes (fuzzy on a word, proximity on a phrase, range bounds word / phrase), "
-        "operations with >= 2 operands",
+        "supported trees: the listed constructs, operations with >= 2 operands, range bounds word / phrase "
+        "possibly under -; the Python oracle judges grammar shapes (fuzzy on a word, proximity on a phrase)",
+        "no match_type / type field option is 'bool' or 'nested' (options_not_reserved)",
         "floats are not modelled: boost / fuzziness / slop are compared as the exact decimals handed to float()",
         "history clause: the model is a pure function of (configuration, tree); what ties this to the code is the "
         "call-sequence correspondence and the (hard-coded) fact that the class-level defaults are tuples / str",
